@@ -65,6 +65,13 @@ def run(tier, out, model_ok, proof):
         docs.append(treecorr.gen_structured(rng, with_macros=rng.random() < 0.3))
     for i, roots in enumerate(docs):
         cases.append(treecorr.single_file_case("a%d" % i, C09.render_nodes(roots)))
+    # names that become JSON object keys (interaction ids, tag / server / type / enum names) and
+    # annotations with bytes that need escaping: control characters, DEL, invalid or unusual UTF-8
+    odd = [b"\x07", b"\x01", b"\x1b[0m", b"\x7f", b"\xf3\xa0\x80\x81", b"\xff", b"\xe2\x82", b"\xc3\xa9", b"\xe6\xbc\xa2", b'\\', b"\x0b", b"\xf0\x9f\x98\x80"]
+    for k, o in enumerate(odd):
+        cases.append(treecorr.single_file_case("odd%d" % k,
+            b"JSIGHT 0.3\nGET /p" + o + b"q/{id} // ann " + o + b"\n  200 any\nURL /rpc" + o + b"\n  Protocol json-rpc-2.0\n  Method m" + o + b"x // " + o + b"\n    Params\n      {}\n"
+            b"SERVER @s // srv " + o + b"\n  BaseUrl \"https://h/" + o + b"\"\nTAG @t // tag " + o + b"\n  Description\n    text " + o + b"\nINFO\n  Title \"T" + o + b"\"\n"))
     cases.append(treecorr.single_file_case("f9", b'JSIGHT 0.3\nURL /a/{id}\n  Path\n  {\n    "id": 1 // {min: 5}\n  }\n  GET\n    200 any\n'))
     corp = corpus_files()
     for i, f in enumerate(corp if big else rng.sample(corp, 300)):
